@@ -1,7 +1,7 @@
 CONSTANTS
-  Nets <- MCNetsLoop
-  Durations <- MCDurSmall
-  Configs <- MCCfgDefault
+  Nets <- MCNetsMin
+  Durations <- MCDurRel
+  Configs <- MCCfgHold
   CheckPeriod = 5
   SendsPerSec = 15
   Slack = 1
